@@ -654,6 +654,12 @@ fn word_sweep(tier: Tier) -> (Acc, u64) {
 pub fn run(tier: Tier) -> i32 {
     let mut rep = Report::new("C15", tier);
     {
+        // functions of zero-sized types: each invocable under its own name (shared with C11)
+        let (zacc, n) = super::c11::zst_leg();
+        rep.bound("zero_sized_function_sequences", n);
+        rep.absorb(zacc);
+    }
+    {
         let (wacc, n) = word_sweep(tier);
         rep.bound("word_sweep", format!("every lower-case word of length <= {}, {} plausible keyword words in 6 spellings: {n} names", tier.pick(3, 4), PLAUSIBLE_WORDS.len()));
         rep.absorb(wacc);
@@ -866,6 +872,7 @@ pub fn replay(case: &serde_json::Value) -> i32 {
                 }
             }
         }
+        Some("zero-sized-functions") => super::c11::replay(case),
         Some("name") if matches!(case.get("via").and_then(|v| v.as_str()), Some("text") | Some("mixed")) => {
             let name = case.get("name").and_then(|n| n.as_str()).unwrap_or("").to_string();
             let mut acc = Acc::new();
